@@ -2,13 +2,14 @@
 # regress_seeds.sh [seed ...]: re-run the quick check of each kept seed's property against the seeded change, in a scratch
 # worktree of /repo and a scratch copy of /verif (HEAD), so that /repo and /verif stay usable meanwhile.
 # Every kept seed must still be detected (exit 1).  Results: /verif/out/regress.log
+# REGRESS_SUFFIX=<x> uses separate scratch directories and /verif/out/regress<x>.log, so that several subsets can run side by side.
 set -u
-RW=/tmp/wt/regress; RV=/tmp/rv
+SUF="${REGRESS_SUFFIX:-}"; RW=/tmp/wt/regress$SUF; RV=/tmp/rv$SUF
 rm -rf "$RV"; git -C /repo worktree remove --force "$RW" >/dev/null 2>&1; rm -rf "$RW"; git -C /repo worktree prune
-/verif/bin/mkwt regress >/dev/null || exit 2
+/verif/bin/mkwt regress$SUF >/dev/null || exit 2
 mkdir -p "$RV"; (cd /verif && git archive HEAD | tar -x -C "$RV") || exit 2
 mkdir -p "$RV/out"
-log=/verif/out/regress.log; : > "$log"
+log=/verif/out/regress$SUF.log; : > "$log"
 seeds="$*"; [ -n "$seeds" ] || seeds=$(ls /verif/seeded | grep -v '^_')
 miss=0
 for s in $seeds; do
